@@ -33,7 +33,13 @@ def prose_equal(expected, got, has_default=False):
     if got is None:
         got = ""
     head, had = split_default_sentence(got)
+    ehead, ehad = split_default_sentence(expected)  # inside a chain the entering description carries the sentence too
+    if ehad:
+        expected = ehead
+        has_default = True
     e, g = ws(expected), ws(head)
+    if ehad and e.endswith("."):
+        e = e[:-1].rstrip()
     if had or has_default:
         # the full stop the renderer inserts before the sentence stays behind when the sentence is removed on parse
         return g == e or g == e + "." or (g.endswith(".") and g[:-1].rstrip() == e)
